@@ -30,6 +30,7 @@ def aes_tables(ctx):
 
 
 def run(ctx):
+    integrity(ctx, ['crysp/aes.py', 'crysp/bits.py', 'crysp/des.py', 'crysp/poly.py', 'crysp/serpent.py', 'crysp/threefish.py', 'crysp/utils/operators.py'])
     # ------------------------------------------------------------------ AES
     ctx.rule('C02-R1 tables')
 
